@@ -64,6 +64,22 @@ Theorem C07_copy_shows_same_content : forall k s0 ops i o,
 Proof. exact copy_shows_original. Qed.
 Print Assumptions C07_copy_shows_same_content.
 
+(* A copy refines the dictionary-of-sets state of its ORIGINAL: after copying an event that shows state s, EVERY
+   sequence of public mutations of the copy raises exactly when the model started from s does, shows the model's
+   state and keeps its XML equal to its views — the interchangeability of the representations extends over copies.
+   (`wf o` holds of every event reached from dictionaries: C07_reachable_wf.) *)
+Theorem C07_copy_behaves_like_original : forall o s n ops, wf o -> coherent o -> R o s ->
+  let c := copy_obj CopyFixed o n in
+  snd (orun n c ops) = snd (srun s ops) /\ R (fst (orun n c ops)) (fst (srun s ops)) /\ coherent (fst (orun n c ops)).
+Proof. exact copy_then_mutations. Qed.
+Print Assumptions C07_copy_behaves_like_original.
+
+Theorem C07_reachable_wf : forall k s0 ops,
+  NoDup (akeys (s_props s0)) -> NoDup (akeys (s_atts s0)) ->
+  hinv (hrun CopyFixed [fresh k s0 0] ops) /\ hwf (hrun CopyFixed [fresh k s0 0] ops).
+Proof. intros k s0 ops A B. exact (hrun_wf ops [fresh k s0 0] (single_inv k s0) (single_wf k s0 A B)). Qed.
+Print Assumptions C07_reachable_wf.
+
 (* ... and the invariant is needed: a cached view holding a name twice, the first entry emptied, would make the
    copy show the hidden entry. *)
 Theorem C07_copy_needs_distinct_names_refuted :
